@@ -59,6 +59,17 @@ func streamBCD(c *ctx) {
 	}
 	rec([]byte{}, 0, false)
 
+	// runes that alias a digit when truncated (low byte or low 16 bits in '0'..'9'), and the digits of
+	// other scripts: alone, after an odd and after an even number of digits
+	for _, base := range []rune{0x0100, 0x0200, 0x1f00, 0xff00, 0x10000, 0x10ff00, 0xff10 - '0', 0x0660 - '0', 0x06f0 - '0', 0x0966 - '0'} {
+		for d := rune('0'); d <= '9'; d++ {
+			for _, pre := range []string{"", "7", "42"} {
+				s := []byte(pre + string(base+d))
+				w.Emit("bcd-enc "+cases.Hex(s), bcdEnc(s), "enc/aliasing-rune")
+			}
+		}
+	}
+
 	// random longer digit strings with at most one defect
 	for i := 0; i < 20000*c.scale; i++ {
 		n := c.r.Intn(40)
